@@ -172,10 +172,15 @@ def conserving_shifts(r, pairs, sig, tree, D):
     sum_{e out of v} p_e - sum_{e into v} p_e = incoming external momentum.
     Chords get p = 0, tree edges carry the external flow; then a random loop offset S*a is added."""
     vs = sorted({v for p in pairs for v in p})
-    ext = {v: [Fr(r.range(-8, 8), 4) for _ in range(D)] for v in vs}
     last = vs[-1]
-    for d in range(D):
-        ext[last][d] = -sum(ext[v][d] for v in vs[:-1])
+    for _try in range(12):
+        ext = {v: [Fr(r.range(-8, 8), 4) for _ in range(D)] for v in vs}
+        for d in range(D):
+            ext[last][d] = -sum(ext[v][d] for v in vs[:-1])
+        # generic: no proper non-empty subset of the external momenta sums to zero
+        if len(vs) > 7 or all(any(sum(ext[vs[i]][d] for i in range(len(vs)) if mask >> i & 1) != 0 for d in range(D))
+                              for mask in range(1, (1 << len(vs)) - 1)):
+            break
     E = len(pairs)
     p = [[Fr(0)] * D for _ in range(E)]
     # solve on the spanning tree by leaf elimination
